@@ -1,8 +1,13 @@
 """Implementation side of stream C14/names: run filenames.get_new_file_name (and
 tools.files.create_backup) in scratch directories populated with decoys."""
-import json, os, sys, tempfile, shutil
+import signal, json, os, sys, tempfile, shutil
 from biogeme.filenames import get_new_file_name
 
+def _alarm(*a):
+    raise TimeoutError('no answer after 20 s')
+
+
+signal.signal(signal.SIGALRM, _alarm)
 cases = json.load(sys.stdin)
 out = []
 root = os.getcwd()
@@ -16,9 +21,12 @@ for c in cases:
             os.mkdir(f)
         before = sorted(os.listdir('.'))
         try:
+            signal.alarm(20)
             r = get_new_file_name(c['name'], c['ext'])
+            signal.alarm(0)
             res = {'ok': True, 'name': r, 'existed': os.path.isfile(r)}
         except Exception as e:  # noqa
+            signal.alarm(0)
             res = {'ok': False, 'exc': type(e).__name__, 'msg': str(e)[:200]}
         res['unchanged'] = before == sorted(os.listdir('.'))
         out.append(res)
